@@ -4,6 +4,7 @@ via VERIF_REPO) and record the outcome in seeded/<id>/meta.json and seeded/MATRI
 import json, os, subprocess, sys, glob
 ROOT = os.path.dirname(os.path.dirname(os.path.abspath(__file__)))
 WT = sys.argv[1] if len(sys.argv) > 1 else "/tmp/wt0"
+ONLY = set(sys.argv[2:])   # optional: re-run only these seed ids (the table is rebuilt from every meta.json)
 head = subprocess.check_output(["git", "-C", "/repo", "rev-parse", "HEAD"], text=True).strip()
 rows = []
 for d in sorted(glob.glob(os.path.join(ROOT, "seeded", "*"))):
@@ -11,6 +12,9 @@ for d in sorted(glob.glob(os.path.join(ROOT, "seeded", "*"))):
     if not os.path.exists(mp):
         continue
     meta = json.load(open(mp))
+    if ONLY and os.path.basename(d) not in ONLY:
+        rows.append((os.path.basename(d), meta["property"], meta.get("verdict", "?"), ",".join(meta.get("detected_by", [])), meta.get("summary", "")[:110]))
+        continue
     subprocess.check_call(["git", "-C", WT, "checkout", "-q", "-f", "--detach", head])
     subprocess.check_call(["git", "-C", WT, "clean", "-fdq", "-e", "_out"])
     r = subprocess.run(["git", "-C", WT, "apply", os.path.join(d, "patch.diff")])
